@@ -184,6 +184,19 @@ pub fn map_key(v: &Val) -> String {
     }
 }
 
+/// the key of a `$set` element: integers are padded so that text order is numeric order (as in a BTreeSet)
+pub fn set_key(v: &Val) -> String {
+    match v {
+        Val::Int { v, .. } if *v >= 0 => format!("{:040}", v),
+        Val::Int { v, .. } => format!("-{:040}", i128::MAX - v.unsigned_abs() as i128),
+        o => map_key(o),
+    }
+}
+
+pub fn new_set() -> Val {
+    Val::Ctor("$set".into(), vec![], BTreeMap::new())
+}
+
 pub fn new_map() -> Val {
     Val::Ctor("$map".into(), vec![], BTreeMap::new())
 }
@@ -1146,6 +1159,28 @@ impl<'a> Evaluator<'a> {
             }
             Expr::MethodCall(mc) if ["insert", "remove", "clear"].contains(&mc.method.to_string().as_str())
                 && self.place_of(&mc.receiver).is_some()
+                && matches!(self.eval(&mc.receiver, env), Ok(Val::Ctor(n, _, _)) if n == "$set") =>
+            {
+                let place = self.place_of(&mc.receiver).unwrap();
+                let mut args = vec![];
+                for a in mc.args.iter() {
+                    args.push(self.eval(a, env)?);
+                }
+                let Some(Val::Ctor(_, _, f)) = place_get_mut(env, &place) else { return Err("set place lost".into()) };
+                match mc.method.to_string().as_str() {
+                    "insert" => {
+                        let x = args.into_iter().next().ok_or("insert without element")?;
+                        Ok(Val::Bool(f.insert(set_key(&x), x).is_none()))
+                    }
+                    "remove" => Ok(Val::Bool(f.remove(&set_key(args.first().ok_or("remove without element")?)).is_some())),
+                    _ => {
+                        f.clear();
+                        Ok(Val::Unit)
+                    }
+                }
+            }
+            Expr::MethodCall(mc) if ["insert", "remove", "clear"].contains(&mc.method.to_string().as_str())
+                && self.place_of(&mc.receiver).is_some()
                 && matches!(self.eval(&mc.receiver, env), Ok(Val::Ctor(n, _, _)) if n == "$map") =>
             {
                 let place = self.place_of(&mc.receiver).unwrap();
@@ -1280,6 +1315,22 @@ impl<'a> Evaluator<'a> {
                     _ => None,
                 };
                 if let Val::Ctor(n, _, f) = &recv {
+                    if n == "$set" {
+                        match name.as_str() {
+                            "contains" if mc.args.len() == 1 => {
+                                let k = set_key(&self.eval(&mc.args[0], env)?);
+                                return Ok(Val::Bool(f.contains_key(&k)));
+                            }
+                            "len" => return Ok(Val::int(f.len() as i128)),
+                            "is_empty" => return Ok(Val::Bool(f.is_empty())),
+                            // ordered like a BTreeSet: the keys are built so that their text order is the element order
+                            "iter" | "into_iter" => return Ok(Val::List(f.values().cloned().collect())),
+                            "first" => return Ok(f.values().next().cloned().map(Val::some).unwrap_or(Val::none())),
+                            "last" => return Ok(f.values().last().cloned().map(Val::some).unwrap_or(Val::none())),
+                            "clone" => return Ok(recv.clone()),
+                            _ => {}
+                        }
+                    }
                     if n == "$map" {
                         match name.as_str() {
                             "get" | "contains_key" if mc.args.len() == 1 => {
@@ -1840,7 +1891,26 @@ impl<'a> Evaluator<'a> {
                 let idx = self.eval(&ix.index, env)?;
                 match (base, idx) {
                     (Val::Ctor(n, _, f), k) if n == "$map" => f.get(&map_key(&k)).cloned().ok_or_else(|| format!("map index: key {} not present (the code would panic here)", k.show())),
-                    (Val::List(l), Val::Int { v, .. }) => l.get(v as usize).cloned().ok_or_else(|| "index out of range".to_string()),
+                    (Val::List(l), Val::Int { v, .. }) => l.get(v as usize).cloned().ok_or_else(|| "index out of range (the code would panic here)".to_string()),
+                    // `l[a..]`: an open range value
+                    (Val::List(l), Val::Ctor(n, p, _)) if n == "$range" && p.len() == 2 => {
+                        let lo = match &p[0] { Val::Int { v, .. } => *v as usize, _ => 0 };
+                        let hi = match &p[1] { Val::Int { v, .. } => *v as usize, _ => l.len() };
+                        if lo > hi || hi > l.len() {
+                            return Err(format!("slice {}..{} of a list of {} out of range (the code would panic here)", lo, hi, l.len()));
+                        }
+                        Ok(Val::List(l[lo..hi].to_vec()))
+                    }
+                    // `l[a..b]` evaluates its bounds to a list of indices
+                    (Val::List(l), Val::List(ix)) if ix.iter().all(|v| matches!(v, Val::Int { .. })) => {
+                        let mut out = vec![];
+                        for i in &ix {
+                            if let Val::Int { v, .. } = i {
+                                out.push(l.get(*v as usize).cloned().ok_or_else(|| "slice out of range (the code would panic here)".to_string())?);
+                            }
+                        }
+                        Ok(Val::List(out))
+                    }
                     (b, i) => Err(format!("index {}[{}]", b.show(), i.show())),
                 }
             }
